@@ -574,6 +574,13 @@ class DynDiGraph(nx.DiGraph):
                 app[-1] = [app[-1][0], t[1]]
                 if app[-1][0] + 1 in self.time_to_edge and (u, v, "+") in self.time_to_edge[app[-1][0] + 1]:
                     del self.time_to_edge[app[-1][0] + 1][(u, v, "+")]
+                if app[-1][0] + 1 in self.time_to_edge and (u, v, "-") in self.time_to_edge[app[-1][0] + 1]:
+                    # the one-instant run was closed: move its '-' to the new end
+                    del self.time_to_edge[app[-1][0] + 1][(u, v, "-")]
+                    if t[1] + 1 in self.time_to_edge:
+                        self.time_to_edge[t[1] + 1][(u, v, "-")] = None
+                    else:
+                        self.time_to_edge[t[1] + 1] = {(u, v, "-"): None}
 
             else:
                 if t[0] <= max_end < t[1]:
